@@ -238,6 +238,11 @@ class ConformationContainer:
             # re-calculating the total pKa values
             for group in self.groups:
                 group.calculate_total_pka()
+        elif self.parameters.shared_determinants:
+            # shared determinants were overwritten after the totals were
+            # calculated
+            for group in self.groups:
+                group.calculate_total_pka()
 
     def coupling_effects(self):
         """Penalize groups based on coupling effects.
